@@ -517,7 +517,8 @@ Qed.
 
 (* the handed-out struct p and everything it points to live at or above n *)
 Definition priv (n : nat) (h : heap) (p : oid) : Prop :=
-  n <= p /\ forall ob, nth_error h p = Some ob -> forall o, In o (ptr_fields ob) -> n <= o.
+  n <= p /\ p < List.length h /\
+  forall ob, nth_error h p = Some ob -> forall o, In o (ptr_fields ob) -> n <= o.
 
 Lemma in_olist o r : In o (olist r) <-> r = Some o.
 Proof.
@@ -533,7 +534,7 @@ Lemma priv_fields n sc ov st ids nm lv vts g :
   forall o, In o (ptr_fields (OStmt nm sc lv ov vts st ids g)) -> n <= o.
 Proof.
   intros G1 G2 G3 G4 o. cbn. rewrite !in_app_iff, !in_olist.
-  intros [->|[->|[->|->]]]; assumption.
+  intros [ -> | [ -> | [ -> | -> ] ] ]; assumption.
 Qed.
 
 (* ---- allocation of slices and maps ---- *)
@@ -541,8 +542,8 @@ Lemma load_arr_spec h l h' r : load_arr h l = (h', r) ->
   ext h h' /\ inb (List.length h') r /\ geb (List.length h) r /\ get_arr h' r = l.
 Proof.
   unfold load_arr, alloc. destruct l as [|x t]; intros E; inversion E; subst; clear E.
-  - repeat split; [apply ext_refl | exact I | exact I].
-  - repeat split; [apply ext_snoc | cbn; rewrite app_length; cbn; lia | cbn; lia |].
+  - split; [apply ext_refl|]. split; [exact I|]. split; [exact I|]. reflexivity.
+  - split; [apply ext_snoc|]. split; [cbn; rewrite app_length; cbn; lia|]. split; [cbn; lia|].
     unfold get_arr. rewrite nth_snoc. reflexivity.
 Qed.
 
@@ -550,8 +551,8 @@ Lemma load_map_spec h m h' r : load_map h m = (h', r) ->
   ext h h' /\ inb (List.length h') r /\ geb (List.length h) r /\ get_map h' r = m.
 Proof.
   unfold load_map, alloc. destruct m as [|x t]; intros E; inversion E; subst; clear E.
-  - repeat split; [apply ext_refl | exact I | exact I].
-  - repeat split; [apply ext_snoc | cbn; rewrite app_length; cbn; lia | cbn; lia |].
+  - split; [apply ext_refl|]. split; [exact I|]. split; [exact I|]. reflexivity.
+  - split; [apply ext_snoc|]. split; [cbn; rewrite app_length; cbn; lia|]. split; [cbn; lia|].
     unfold get_map. rewrite nth_snoc. reflexivity.
 Qed.
 
@@ -562,9 +563,9 @@ Lemma clone_map_spec h r h' r' : clone_map true h r = (h', r') ->
   ext h h' /\ inb (List.length h') r' /\ geb (List.length h) r' /\ get_map h' r' = get_map h r.
 Proof.
   unfold clone_map, alloc. destruct r as [o|]; intros E; inversion E; subst; clear E.
-  - repeat split; [apply ext_snoc | cbn; rewrite app_length; cbn; lia | cbn; lia |].
+  - split; [apply ext_snoc|]. split; [cbn; rewrite app_length; cbn; lia|]. split; [cbn; lia|].
     unfold get_map at 1. rewrite nth_snoc. reflexivity.
-  - repeat split; [apply ext_refl | exact I | exact I].
+  - split; [apply ext_refl|]. split; [exact I|]. split; [exact I|]. reflexivity.
 Qed.
 
 (* a struct allocated behind its four field objects *)
@@ -588,7 +589,8 @@ Proof.
     rewrite (get_arr_agree _ hids hf ids (ext_agree _ _ (ext_trans _ _ _ E4 Ef)) I4). reflexivity.
   - split; [unfold hf, p; rewrite app_length; cbn; lia|]. rewrite Np.
     repeat split; eapply inb_mono; try eassumption; apply ext_len; eapply ext_trans; eassumption.
-  - split; [exact L|]. intros ob Hob. rewrite Np in Hob. inversion Hob; subst.
+  - split; [exact L|]. split; [unfold hf, p; rewrite app_length; cbn; lia|].
+    intros ob Hob. rewrite Np in Hob. inversion Hob; subst.
     apply priv_fields; assumption.
 Qed.
 
@@ -601,28 +603,334 @@ Proof.
   destruct (nth_error h sid) as [[| |nm sc lv ov vts st ids g]|]; try contradiction.
   destruct C as (C1 & C2 & C3 & C4).
   destruct (clone_map true h ov) as [h1 ov'] eqn:E1.
-  rewrite !clone_arr_load in E.
-  destruct (load_arr h1 (get_arr h1 ids)) as [h2 ids'] eqn:E2.
-  destruct (load_arr h2 (get_arr h2 st)) as [h3 st'] eqn:E3.
-  destruct (load_arr h3 (get_arr h3 sc)) as [h4 sc'] eqn:E4.
-  unfold alloc in E. inversion E; subst h' p; clear E.
+  rewrite clone_arr_load in E. destruct (load_arr h1 (get_arr h1 ids)) as [h2 ids'] eqn:E2.
+  rewrite clone_arr_load in E. destruct (load_arr h2 (get_arr h2 st)) as [h3 st'] eqn:E3.
+  rewrite clone_arr_load in E. destruct (load_arr h3 (get_arr h3 sc)) as [h4 sc'] eqn:E4.
+  unfold alloc in E. inversion E; subst; clear E.
   apply clone_map_spec in E1. destruct E1 as (X1 & I1 & G1 & V1).
   apply load_arr_spec in E2. destruct E2 as (X2 & I2 & G2 & V2).
   apply load_arr_spec in E3. destruct E3 as (X3 & I3 & G3 & V3).
   apply load_arr_spec in E4. destruct E4 as (X4 & I4 & G4 & V4).
   pose proof (ext_len _ _ X1) as L1. pose proof (ext_len _ _ X2) as L2.
   pose proof (ext_len _ _ X3) as L3. pose proof (ext_len _ _ X4) as L4.
-  assert (A1 : agree (List.length h) h h1) by (apply ext_agree; exact X1).
-  assert (A2 : agree (List.length h) h h2) by (apply ext_agree; eapply ext_trans; eassumption).
-  assert (A3 : agree (List.length h) h h3) by (apply ext_agree; repeat (eapply ext_trans; [eassumption|]); apply ext_refl).
-  rewrite (get_arr_agree _ h h1 ids A1 C4) in V2.
-  rewrite (get_arr_agree _ h h2 st A2 C3) in V3.
-  rewrite (get_arr_agree _ h h3 sc A3 C1) in V4.
+  pose proof (ext_trans _ _ _ X1 X2) as X02. pose proof (ext_trans _ _ _ X02 X3) as X03.
+  pose proof (ext_trans _ _ _ X03 X4) as X04. pose proof (ext_trans _ _ _ X3 X4) as X24.
+  pose proof (ext_trans _ _ _ X2 X24) as X14.
+  rewrite (get_arr_agree _ h h1 ids (ext_agree _ _ X1) C4) in V2.
+  rewrite (get_arr_agree _ h h2 st (ext_agree _ _ X02) C3) in V3.
+  rewrite (get_arr_agree _ h h3 sc (ext_agree _ _ X03) C1) in V4.
   destruct (build_spec n0 h4 nm sc' lv ov' vts st' ids' g h4 h1 h3 h2) as (B1 & B2 & B3);
     try assumption; try apply ext_refl; try (eapply geb_mono; [|eassumption]; lia); try lia.
-  - repeat (eapply ext_trans; [eassumption|]); apply ext_refl.
-  - eapply ext_trans; eassumption.
-  - split; [|split; [|split]]; try assumption.
-    + eapply ext_trans; [|apply ext_snoc]. repeat (eapply ext_trans; [eassumption|]). apply ext_refl.
-    + rewrite B1, V1, V2, V3, V4. reflexivity.
+  split; [|split; [|split]]; try assumption.
+  - eapply ext_trans; [exact X04 | apply ext_snoc].
+  - rewrite B1, V1, V2, V3, V4. reflexivity.
 Qed.
+
+Lemma priv_ext n h h' p : ext h h' -> priv n h p -> priv n h' p.
+Proof.
+  intros E (P1 & P2 & P3). split; [exact P1|]. split; [pose proof (ext_len _ _ E); lia|].
+  intros ob Hob. rewrite (ext_agree _ _ E p P2) in Hob. exact (P3 ob Hob).
+Qed.
+
+(* ---- laying a document out on the heap ---- *)
+Lemma geb0 r : geb 0 r.
+Proof. destruct r; cbn; [lia | trivial]. Qed.
+
+Lemma load_stmt_spec h s h' sid : load_stmt h s = (h', sid) ->
+  ext h h' /\ view h' sid = s /\ closed (List.length h') h' sid.
+Proof.
+  unfold load_stmt. intros E.
+  destruct (load_arr h (s_scopes s)) as [h1 sc] eqn:E1.
+  destruct (load_map h1 (sv_override (s_sv s))) as [h2 ov] eqn:E2.
+  destruct (load_arr h2 (s_stores s)) as [h3 st] eqn:E3.
+  destruct (load_arr h3 (s_ids s)) as [h4 ids] eqn:E4.
+  unfold alloc in E. inversion E; subst; clear E.
+  apply load_arr_spec in E1. destruct E1 as (X1 & I1 & _ & V1).
+  apply load_map_spec in E2. destruct E2 as (X2 & I2 & _ & V2).
+  apply load_arr_spec in E3. destruct E3 as (X3 & I3 & _ & V3).
+  apply load_arr_spec in E4. destruct E4 as (X4 & I4 & _ & V4).
+  pose proof (ext_trans _ _ _ X3 X4) as X24. pose proof (ext_trans _ _ _ X2 X24) as X14.
+  pose proof (ext_trans _ _ _ X1 X14) as X04.
+  destruct (build_spec 0 h4 (s_name s) sc (sv_level (s_sv s)) ov (sv_vts (s_sv s)) st ids (s_global s) h1 h2 h3 h4)
+    as (B1 & B2 & _); try assumption; try apply ext_refl; try apply geb0; try lia.
+  split; [eapply ext_trans; [exact X04 | apply ext_snoc]|]. split; [|exact B2].
+  rewrite B1, V1, V2, V3, V4. destruct s as [nm scs [lv ovr vts] sts idl g]. reflexivity.
+Qed.
+
+Lemma load_doc_spec d : forall h h' doc, load_doc h d = (h', doc) ->
+  ext h h' /\ Forall (closed (List.length h') h') doc /\ map (view h') doc = d.
+Proof.
+  induction d as [|s t IH]; intros h h' doc E; cbn in E.
+  - inversion E; subst. split; [apply ext_refl|]. split; [constructor | reflexivity].
+  - destruct (load_stmt h s) as [h1 sid] eqn:E1. destruct (load_doc h1 t) as [h2 doc'] eqn:E2.
+    inversion E; subst; clear E.
+    apply load_stmt_spec in E1. destruct E1 as (X1 & V1 & C1).
+    apply IH in E2. destruct E2 as (X2 & F2 & M2).
+    split; [eapply ext_trans; eassumption|]. split.
+    + constructor; [|exact F2]. eapply closed_ext; eassumption.
+    + cbn. rewrite M2. f_equal. rewrite <- V1. eapply view_agree; [apply ext_agree; exact X2 | exact C1].
+Qed.
+
+(* ---- the selections on a heap whose document part is intact ---- *)
+Section Select.
+Variables (n0 : nat) (h0 : heap).
+
+Lemma clone_in h sid h' p : agree n0 h0 h -> n0 <= List.length h -> closed n0 h0 sid ->
+  h_clone true h sid = (h', p) ->
+  ext h h' /\ view h' p = view h0 sid /\ closed (List.length h') h' p /\ priv n0 h' p.
+Proof.
+  intros A L C E.
+  assert (C' : closed (List.length h) h sid) by (eapply closed_mono; [exact L | eapply closed_agree; eassumption]).
+  destruct (clone_spec n0 h sid h' p L C' E) as (X & V & C2 & P).
+  split; [exact X|]. split; [|split; assumption]. rewrite V. eapply view_agree; eassumption.
+Qed.
+
+Definition good (h : heap) (po : option oid) (vo : option stmt) : Prop :=
+  match po, vo with
+  | Some p, Some v => closed (List.length h) h p /\ view h p = v /\ priv n0 h p
+  | None, None => True
+  | _, _ => False
+  end.
+
+Lemma good_ext h h' po vo : ext h h' -> good h po vo -> good h' po vo.
+Proof.
+  intros E. destruct po as [p|], vo as [v|]; cbn; try tauto.
+  intros (C & V & P). split; [eapply closed_ext; eassumption|]. split; [|eapply priv_ext; eassumption].
+  rewrite <- V. eapply view_agree; [apply ext_agree; exact E | exact C].
+Qed.
+
+Lemma agree_ext h h' : agree n0 h0 h -> n0 <= List.length h -> ext h h' -> agree n0 h0 h'.
+Proof.
+  intros A L E. eapply agree_trans; [exact A|]. eapply agree_mono; [exact L | apply ext_agree; exact E].
+Qed.
+
+Lemma oci_fold_ref path doc : Forall (closed n0 h0) doc -> forall h w a wv av h' w' a',
+  agree n0 h0 h -> n0 <= List.length h -> good h w wv -> good h a av ->
+  fold_left (h_oci_step true path) doc (h, (w, a)) = (h', (w', a')) ->
+  ext h h' /\ exists wv' av',
+    fold_left (oci_step path) (map (view h0) doc) (wv, av) = (wv', av') /\ good h' w' wv' /\ good h' a' av'.
+Proof.
+  induction 1 as [|sid doc C F IH]; intros h w a wv av h' w' a' A L Gw Ga E.
+  - cbn in E. inversion E; subst. split; [apply ext_refl|]. exists wv, av. auto.
+  - cbn [fold_left map] in *. unfold h_oci_step at 2 in E. cbn [fst snd] in E.
+    assert (Vs : view h sid = view h0 sid) by (eapply view_agree; eassumption).
+    rewrite Vs in E. unfold oci_step at 2. cbn [fst snd].
+    destruct (has_scope wildcard (view h0 sid)).
+    + destruct (h_clone true h sid) as [h1 p] eqn:EC.
+      destruct (clone_in h sid h1 p A L C EC) as (X & V & C1 & P).
+      assert (L1 : n0 <= List.length h1) by (pose proof (ext_len _ _ X); lia).
+      destruct (IH h1 (Some p) a (Some (view h0 sid)) av h' w' a') as (X' & R); auto.
+      * eapply agree_ext; eassumption.
+      * cbn. auto.
+      * eapply good_ext; eassumption.
+      * split; [eapply ext_trans; eassumption | exact R].
+    + destruct (has_scope path (view h0 sid)).
+      * destruct (h_clone true h sid) as [h1 p] eqn:EC.
+        destruct (clone_in h sid h1 p A L C EC) as (X & V & C1 & P).
+        assert (L1 : n0 <= List.length h1) by (pose proof (ext_len _ _ X); lia).
+        destruct (IH h1 w (Some p) wv (Some (view h0 sid)) h' w' a') as (X' & R); auto.
+        -- eapply agree_ext; eassumption.
+        -- eapply good_ext; eassumption.
+        -- cbn. auto.
+        -- split; [eapply ext_trans; eassumption | exact R].
+      * exact (IH h w a wv av h' w' a' A L Gw Ga E).
+Qed.
+
+Lemma h_oci_ref doc h ref h' r : Forall (closed n0 h0) doc -> agree n0 h0 h -> n0 <= List.length h ->
+  h_oci true h doc ref = (h', r) ->
+  ext h h' /\ res_view (h', r) = v_oci (map (view h0) doc) ref /\ (forall p, r = HSel p -> priv n0 h' p).
+Proof.
+  intros F A L E. unfold h_oci in E. unfold v_oci.
+  destruct (last_at ref) as [path|].
+  2:{ inversion E; subst. split; [apply ext_refl|]. split; [reflexivity | discriminate]. }
+  destruct (scope_ok path); cbn [negb] in *.
+  2:{ inversion E; subst. split; [apply ext_refl|]. split; [reflexivity | discriminate]. }
+  destruct (fold_left (h_oci_step true path) doc (h, (None, None))) as [h1 [w' a']] eqn:EF.
+  destruct (oci_fold_ref path doc F h None None None None h1 w' a' A L I I EF) as (X & wv' & av' & EV & Gw & Ga).
+  rewrite EV. unfold oci_pick in *. cbn [fst snd] in *.
+  destruct a' as [pa|], av' as [va|]; cbn in Ga; try contradiction.
+  - inversion E; subst. destruct Ga as (_ & V & P). split; [exact X|]. split.
+    + unfold res_view. cbn. rewrite V. reflexivity.
+    + intros p Hp. inversion Hp; subst. exact P.
+  - destruct w' as [pw|], wv' as [vw|]; cbn in Gw; try contradiction.
+    + inversion E; subst. destruct Gw as (_ & V & P). split; [exact X|]. split.
+      * unfold res_view. cbn. rewrite V. reflexivity.
+      * intros p Hp. inversion Hp; subst. exact P.
+    + inversion E; subst. split; [exact X|]. split; [reflexivity | discriminate].
+Qed.
+
+Lemma h_find_ref f h doc : Forall (closed n0 h0) doc -> agree n0 h0 h ->
+  match h_find f h doc with
+  | Some sid => closed n0 h0 sid /\ find f (map (view h0) doc) = Some (view h0 sid)
+  | None => find f (map (view h0) doc) = None
+  end.
+Proof.
+  intros F A. induction F as [|sid doc C F IH]; cbn; [reflexivity|].
+  rewrite (view_agree n0 h0 h sid A C). destruct (f (view h0 sid)); [split; [exact C | reflexivity] | exact IH].
+Qed.
+
+Lemma h_found_ref f h doc e h' r : Forall (closed n0 h0) doc -> agree n0 h0 h -> n0 <= List.length h ->
+  match h_find f h doc with
+  | Some sid => let '(h', p) := h_clone true h sid in (h', HSel p)
+  | None => (h, HErr e)
+  end = (h', r) ->
+  ext h h' /\ res_view (h', r) = match find f (map (view h0) doc) with Some s => RSel s | None => RErr e end
+  /\ (forall p, r = HSel p -> priv n0 h' p).
+Proof.
+  intros F A L E. pose proof (h_find_ref f h doc F A) as R.
+  destruct (h_find f h doc) as [sid|].
+  - destruct R as [C R]. rewrite R. destruct (h_clone true h sid) as [h1 p] eqn:EC. inversion E; subst.
+    destruct (clone_in h sid h' p A L C EC) as (X & V & _ & P).
+    split; [exact X|]. split; [unfold res_view; cbn; rewrite V; reflexivity|].
+    intros p' Hp. inversion Hp; subst. exact P.
+  - rewrite R. inversion E; subst. split; [apply ext_refl|]. split; [reflexivity | discriminate].
+Qed.
+
+Lemma h_select_ref doc h q h' r : Forall (closed n0 h0) doc -> agree n0 h0 h -> n0 <= List.length h ->
+  h_select true h doc q = (h', r) ->
+  ext h h' /\ res_view (h', r) = v_select (map (view h0) doc) q /\ (forall p, r = HSel p -> priv n0 h' p).
+Proof.
+  intros F A L E. destruct q as [ref|n|]; unfold h_select in E; unfold v_select.
+  - apply h_oci_ref; assumption.
+  - unfold h_name in E. unfold v_name. destruct (blank n).
+    + inversion E; subst. split; [apply ext_refl|]. split; [reflexivity | discriminate].
+    + eapply h_found_ref; eassumption.
+  - unfold h_global in E. unfold v_global. eapply h_found_ref; eassumption.
+Qed.
+
+(* ---- writes through a handed-out statement ---- *)
+Lemma upd_length {A} (l : list A) k x : List.length (upd l k x) = List.length l.
+Proof. revert k. induction l as [|y t IH]; intros [|k]; cbn; auto. Qed.
+
+Lemma nth_upd_ne {A} (l : list A) k x o : o <> k -> nth_error (upd l k x) o = nth_error l o.
+Proof.
+  revert k o. induction l as [|y t IH]; intros [|k] [|o] H; cbn; try reflexivity; try congruence.
+  apply IH. congruence.
+Qed.
+
+Lemma nth_upd_same {A} (l : list A) k x y : nth_error (upd l k x) k = Some y -> y = x.
+Proof.
+  revert k. induction l as [|z t IH]; intros [|k]; cbn; try discriminate.
+  - congruence.
+  - apply IH.
+Qed.
+
+Definition inv (h : heap) (ptrs : list oid) : Prop :=
+  agree n0 h0 h /\ n0 <= List.length h /\ Forall (priv n0 h) ptrs.
+
+Definition fields_ge (x : obj) : Prop := forall o, In o (ptr_fields x) -> n0 <= o.
+
+Lemma inv_upd h ptrs a x : inv h ptrs -> n0 <= a -> fields_ge x -> inv (upd h a x) ptrs.
+Proof.
+  intros (A & L & P) La Fx. split; [|split].
+  - intros o Ho. rewrite nth_upd_ne by lia. apply A. exact Ho.
+  - rewrite upd_length. exact L.
+  - eapply Forall_impl; [|exact P]. intros p (P1 & P2 & P3).
+    split; [exact P1|]. split; [rewrite upd_length; exact P2|].
+    intros ob Hob. destruct (Nat.eq_dec p a) as [->|Hne].
+    + apply nth_upd_same in Hob. subst ob. exact Fx.
+    + rewrite nth_upd_ne in Hob by exact Hne. exact (P3 ob Hob).
+Qed.
+
+Lemma inv_snoc h ptrs x : inv h ptrs -> fields_ge x -> inv (h ++ [x])%list ptrs.
+Proof.
+  intros (A & L & P) Fx. split; [|split].
+  - intros o Ho. rewrite nth_error_app1 by lia. apply A. exact Ho.
+  - rewrite app_length. lia.
+  - eapply Forall_impl; [|exact P]. intros p Pp. eapply priv_ext; [apply ext_snoc | exact Pp].
+Qed.
+
+Lemma fields_ge_arr l : fields_ge (OArr l).
+Proof. intros o []. Qed.
+
+Lemma fields_ge_map m : fields_ge (OMap m).
+Proof. intros o []. Qed.
+
+Lemma fields_ge_stmt nm sc lv ov vts st ids g :
+  fields_ge (OStmt nm sc lv ov vts st ids g) <-> geb n0 sc /\ geb n0 ov /\ geb n0 st /\ geb n0 ids.
+Proof.
+  split.
+  - intros H. repeat split.
+    + destruct sc as [o|]; cbn [geb]; [|trivial]. apply H. unfold ptr_fields. rewrite !in_app_iff, !in_olist. auto.
+    + destruct ov as [o|]; cbn [geb]; [|trivial]. apply H. unfold ptr_fields. rewrite !in_app_iff, !in_olist. auto.
+    + destruct st as [o|]; cbn [geb]; [|trivial]. apply H. unfold ptr_fields. rewrite !in_app_iff, !in_olist. auto.
+    + destruct ids as [o|]; cbn [geb]; [|trivial]. apply H. unfold ptr_fields. rewrite !in_app_iff, !in_olist. auto 6.
+  - intros (G1 & G2 & G3 & G4). unfold fields_ge. apply priv_fields; assumption.
+Qed.
+
+Lemma wr_arr_inv h ptrs r g : inv h ptrs -> geb n0 r -> inv (wr_arr h r g) ptrs.
+Proof.
+  intros I G. unfold wr_arr. destruct r as [a|]; [|exact I].
+  destruct (nth_error h a) as [[l| |]|]; try exact I.
+  apply inv_upd; [exact I | exact G | apply fields_ge_arr].
+Qed.
+
+Lemma wr_map_inv h ptrs r g : inv h ptrs -> geb n0 r -> inv (wr_map h r g) ptrs.
+Proof.
+  intros I G. unfold wr_map. destruct r as [a|]; [|exact I].
+  destruct (nth_error h a) as [[|m|]|]; try exact I.
+  apply inv_upd; [exact I | exact G | apply fields_ge_map].
+Qed.
+
+Lemma wr_inv h ptrs p w : inv h ptrs -> In p ptrs -> inv (apply_wr p h w) ptrs.
+Proof.
+  intros I Hp. pose proof I as (A & L & P).
+  rewrite Forall_forall in P. destruct (P p Hp) as (P1 & P2 & P3).
+  unfold apply_wr. destruct (nth_error h p) as [[| |nm sc lv ov vts st ids g]|] eqn:Np; try exact I.
+  pose proof (P3 _ eq_refl) as Fso. fold (fields_ge (OStmt nm sc lv ov vts st ids g)) in Fso.
+  pose proof Fso as Fg. apply fields_ge_stmt in Fg. destruct Fg as (G1 & G2 & G3 & G4).
+  assert (GL : geb n0 (Some (List.length h))) by (cbn; exact L).
+  destruct w as [v|v|v|b|f i v|f v|f v|k v|k|v].
+  - apply inv_upd; [exact I | exact P1 | apply fields_ge_stmt; auto].
+  - apply inv_upd; [exact I | exact P1 | apply fields_ge_stmt; auto].
+  - apply inv_upd; [exact I | exact P1 | apply fields_ge_stmt; auto].
+  - apply inv_upd; [exact I | exact P1 | apply fields_ge_stmt; auto].
+  - apply wr_arr_inv; [exact I|]. destruct f; cbn; assumption.
+  - apply wr_arr_inv; [exact I|]. destruct f; cbn; assumption.
+  - unfold alloc. apply inv_upd; [apply inv_snoc; [exact I | apply fields_ge_arr] | exact P1 |].
+    destruct f; cbn [set_fld]; apply fields_ge_stmt; auto.
+  - destruct ov as [o|].
+    + apply wr_map_inv; [exact I | exact G2].
+    + unfold alloc. apply inv_upd; [apply inv_snoc; [exact I | apply fields_ge_map] | exact P1 |].
+      apply fields_ge_stmt; auto.
+  - apply wr_map_inv; [exact I | exact G2].
+  - apply wr_map_inv; [exact I | exact G2].
+Qed.
+
+Lemma ws_inv ws : forall h ptrs p, inv h ptrs -> In p ptrs -> inv (apply_ws p h ws) ptrs.
+Proof.
+  unfold apply_ws. induction ws as [|w t IH]; intros h ptrs p I Hp; [exact I|].
+  cbn. apply IH; [apply wr_inv; assumption | exact Hp].
+Qed.
+
+Lemma select_inv doc h ptrs q h' r : Forall (closed n0 h0) doc -> inv h ptrs ->
+  h_select true h doc q = (h', r) ->
+  res_view (h', r) = v_select (map (view h0) doc) q
+  /\ inv h' (match r with HSel p => ptrs ++ [p] | HErr _ => ptrs end)%list.
+Proof.
+  intros F (A & L & P) E. destruct (h_select_ref doc h q h' r F A L E) as (X & V & Pp).
+  split; [exact V|]. split; [eapply agree_ext; eassumption|].
+  split; [pose proof (ext_len _ _ X); lia|].
+  assert (P' : Forall (priv n0 h') ptrs).
+  { eapply Forall_impl; [|exact P]. intros p Hp. eapply priv_ext; eassumption. }
+  destruct r as [p|e]; [|exact P']. apply Forall_app. split; [exact P'|]. constructor; [|constructor].
+  apply Pp. reflexivity.
+Qed.
+
+(* ---- a whole session ---- *)
+Lemma session_ref doc : Forall (closed n0 h0) doc -> forall ops h ptrs rs hf,
+  inv h ptrs -> session true doc h ptrs ops = (rs, hf) ->
+  rs = map (v_select (map (view h0) doc)) (sel_queries ops) /\ agree n0 h0 hf.
+Proof.
+  intros F. induction ops as [|[q|k w] ops IH]; intros h ptrs rs hf I E; cbn in E.
+  - inversion E; subst. split; [reflexivity|]. destruct I as (A & _). exact A.
+  - destruct (h_select true h doc q) as [h' r] eqn:ES. cbn [fst snd] in E.
+    destruct (select_inv doc h ptrs q h' r F I ES) as (V & I').
+    destruct (session true doc h' _ ops) as [rs' hf'] eqn:ER. inversion E; subst.
+    destruct (IH _ _ _ _ I' ER) as (R & Af). split; [|exact Af]. cbn. rewrite V, R. reflexivity.
+  - destruct (nth_error ptrs k) as [p|] eqn:Ek.
+    + apply (IH _ _ _ _ (wr_inv h ptrs p w I (nth_error_In _ _ Ek)) E).
+    + apply (IH _ _ _ _ I E).
+Qed.
+
+End Select.
